@@ -29,6 +29,10 @@ class Tup(tuple):
     """A tuple *value* (return a, b) - as opposed to the tagged tuples ("cat", ...), ("from", ...) that describe a value."""
 
 
+class ListVal(tuple):
+    """A list *value* under construction: `parts = [a]; parts.append(b)` is ListVal((a, b)); `"".join(parts)` concatenates."""
+
+
 UNKNOWN = Sym("<unknown>")
 Atom = Callable[[ast.AST, frozenset], "bool | None"]
 
@@ -116,8 +120,33 @@ class Decider:
                     for k, v in zip(lit.keys, lit.values):
                         if k is not None and key_of(k) == want:
                             return self.ev(fi, v, env, benv, aliases, depth)
+        if isinstance(e, (ast.List, ast.Tuple)) and isinstance(e.ctx, ast.Load) and len(e.elts) <= 8 and not any(isinstance(x, ast.Starred) for x in e.elts) \
+                and isinstance(e, ast.List):
+            import itertools
+            parts_ = [self.ev(fi, x, env, benv, aliases, depth) for x in e.elts]
+            n_ = 1
+            for p_ in parts_:
+                n_ *= len(p_)
+            if n_ <= 16:
+                return frozenset(ListVal(c) for c in itertools.product(*parts_))
+        if isinstance(e, ast.Call) and isinstance(e.func, ast.Attribute) and e.func.attr == "join" and len(e.args) == 1 and not e.keywords:
+            seps = self.ev(fi, e.func.value, env, benv, aliases, depth)
+            lists = self.ev(fi, e.args[0], env, benv, aliases, depth)
+            if all(type(sp) is str for sp in seps) and all(isinstance(lv, ListVal) for lv in lists) and len(seps) * len(lists) <= 16:
+                out_ = set()
+                for sp in seps:
+                    for lv in lists:
+                        acc_ = ""
+                        for i_, item in enumerate(lv):
+                            if i_:
+                                acc_ = _cat(acc_, sp)
+                            acc_ = _cat(acc_, item)
+                        out_.add(acc_)
+                return frozenset(out_)
         if isinstance(e, ast.BinOp) and isinstance(e.op, ast.Add):
             ls, rs = self.ev(fi, e.left, env, benv, aliases, depth), self.ev(fi, e.right, env, benv, aliases, depth)
+            if len(ls) * len(rs) <= 16 and all(isinstance(x, ListVal) for x in ls | rs):
+                return frozenset(ListVal(tuple(l) + tuple(r)) for l in ls for r in rs)
             if len(ls) * len(rs) <= 16:
                 return frozenset(_cat(l, r) for l in ls for r in rs)
         if isinstance(e, ast.JoinedStr):
@@ -242,6 +271,8 @@ class Decider:
                         outs = outs + (("store", tgk, v),)
                     if isinstance(tg, ast.Name):
                         v = self.ev(fi, a.value, env, benv, aliases, depth)
+                        if any(isinstance(x, ListVal) for x in v) and self._list_escapes(fi, tg.id):
+                            v = frozenset({UNKNOWN})  # the list is changed in ways this evaluator does not model
                         env = {**env, tg.id: v}
                         # the name is rebound: it no longer denotes what it was an alias of
                         aliases = frozenset(al for al in aliases if al.partition("=")[2] != tg.id and not al.partition("=")[2].startswith(tg.id + "."))
@@ -280,7 +311,24 @@ class Decider:
                         env = {**env, a.target.id: frozenset({UNKNOWN})}
                 elif isinstance(a, ast.Expr) and isinstance(a.value, ast.Call) and isinstance(a.value.func, ast.Attribute) \
                         and a.value.func.attr in ("append", "add") and len(a.value.args) == 1:
-                    outs = outs + (self.ev(fi, a.value.args[0], env, benv, aliases, depth),)
+                    item = self.ev(fi, a.value.args[0], env, benv, aliases, depth)
+                    outs = outs + (item,)
+                    recv = a.value.func.value
+                    if a.value.func.attr == "append" and isinstance(recv, ast.Name) and recv.id in env and env[recv.id] \
+                            and all(isinstance(lv, ListVal) for lv in env[recv.id]):
+                        if len(env[recv.id]) * len(item) <= 16:
+                            env = {**env, recv.id: frozenset(ListVal(tuple(lv) + (it,)) for lv in env[recv.id] for it in item)}
+                        else:
+                            env = {**env, recv.id: frozenset({UNKNOWN})}
+                elif isinstance(a, ast.Expr) and isinstance(a.value, ast.Call) and isinstance(a.value.func, ast.Attribute) \
+                        and a.value.func.attr == "extend" and len(a.value.args) == 1 and isinstance(a.value.func.value, ast.Name) \
+                        and a.value.func.value.id in env and all(isinstance(lv, ListVal) for lv in env[a.value.func.value.id]):
+                    more = self.ev(fi, a.value.args[0], env, benv, aliases, depth)
+                    nm_ = a.value.func.value.id
+                    if all(isinstance(m_, ListVal) for m_ in more) and len(env[nm_]) * len(more) <= 16:
+                        env = {**env, nm_: frozenset(ListVal(tuple(lv) + tuple(m_)) for lv in env[nm_] for m_ in more)}
+                    else:
+                        env = {**env, nm_: frozenset({UNKNOWN})}
                 elif isinstance(a, ast.Return):
                     v = a.value
                     if isinstance(v, ast.Tuple):
@@ -318,6 +366,21 @@ class Decider:
         if budget <= 0:
             results.append((None, {}, {}, (frozenset({UNKNOWN}),)))
         return results
+
+    def _list_escapes(self, fi: FuncInfo, name: str) -> bool:
+        """Is the local list `name` touched other than by append / extend / being read (joined, iterated, returned)?"""
+        for n in ast.walk(fi.node):
+            if isinstance(n, ast.Call) and isinstance(n.func, ast.Attribute) and isinstance(n.func.value, ast.Name) and n.func.value.id == name \
+                    and n.func.attr not in ("append", "extend", "copy", "count", "index"):
+                return True
+            if isinstance(n, (ast.Subscript,)) and isinstance(n.value, ast.Name) and n.value.id == name and isinstance(n.ctx, (ast.Store, ast.Del)):
+                return True
+            if isinstance(n, ast.AugAssign) and isinstance(n.target, ast.Name) and n.target.id == name:
+                return True
+            if isinstance(n, ast.Call) and any(isinstance(x, ast.Name) and x.id == name for x in list(n.args) + [k.value for k in n.keywords]) \
+                    and not (isinstance(n.func, ast.Attribute) and n.func.attr == "join") and not (isinstance(n.func, ast.Name) and n.func.id in ("len", "list", "tuple", "sorted", "enumerate", "reversed", "any", "all")):
+                return True
+        return False
 
     def func_outcomes(self, fi: FuncInfo, aliases: frozenset, depth: int = 0, env0: dict | None = None) -> frozenset:
         """Values the function may return under the valuation."""
